@@ -86,6 +86,7 @@ package log
 //@   requires SegGood(s)
 //@   modifies s.synced, contents(s.file.Data), s.file.gdur
 //@   ensures [C14.close-syncs] result0 == nil ==> s.synced == s.n && hdrDur(s) == s.n
+//@   ensures [C14.close-keeps-clean] old(s.synced == s.n) ==> s.synced == s.n
 //@   ensures [C14.close-keeps-good] SegGood(s) && s.n == old(s.n) && s.size == old(s.size)
 //@   crash_inv [C14.close-crash-ok] CrashOK0(s)
 
@@ -135,3 +136,21 @@ package log
 //@   loop 1 invariant l.last == old(l.last) && (l.first != nil ==> InList(l, l.first) && SegGood(l.first)) && (l.first == nil ==> forall(x, !l.gin[x]))
 //@   loop 1 invariant forall(x, l.gin[x] ==> x != 0 && allocated(x) && old(l.gin[x]) && TailOK(l, x) && l.first.gord <= SOrd(x)) && forall(x, y, l.gin[x] && l.gin[y] && x != y ==> SegSep(x, y))
 //@   loop 1 invariant forall(x, old(l.gin[x]) ==> SegSame(x) && SName(x) == old(SName(x))) && forall(x, old(l.gin[x]) && !l.gin[x] ==> !fs[SName(x)]) && forall(p, fs[p] ==> old(fs[p]))
+
+// CanLTE: the compaction point RemoveLTE(i) can reach: a segment boundary, never beyond i (C09)
+//@ func (*Log).CanLTE
+//@   props C09
+//@   requires LogShape(l) && l.index == nil
+//@   ensures [C09+C13.can-lte-bound] result0 >= LogPrev(l) && (result0 > LogPrev(l) ==> result0 <= i)
+//@   ensures [C09+C13.can-lte-boundary] exists(x, l.gin[x] && SP(x) == result0)
+//@   loop 1 invariant s != nil && InList(l, s) && SegGood(s) && s.prevIndex >= l.first.prevIndex && (s.prevIndex > l.first.prevIndex ==> s.prevIndex <= i)
+
+// Close: everything is committed before the files are unmapped (C14, C10)
+//@ func (*Log).Close
+//@   props C06 C10
+//@   requires LogShape(l) && l.index == nil
+//@   modifies segment.synced, elems(uint8), mmap.File.gdur
+//@   ensures [C14+C10.close-commits] result0 == nil ==> forall(x, l.gin[x] && SN(x) > 0 ==> SSy(x) == SN(x))
+//@   ensures [C13.close-frame] LogShape(l) && forall(x, l.gin[x] ==> SegKept(x))
+//@   loop 1 invariant LogShape(l) && (s != nil ==> InList(l, s) && SegGood(s)) && forall(x, l.gin[x] ==> SegKept(x))
+//@   loop 1 invariant err == nil ==> forall(x, l.gin[x] && SN(x) > 0 ==> SSy(x) == SN(x))
